@@ -1,0 +1,33 @@
+//go:build verif
+
+package pm
+
+// VerifCompile dumps compilePattern(parsePattern(p)) as plain ints, one row per
+// instruction: opcode, operand1, operand2 and, for opChar, the bytes 0..255 that the
+// instruction's class matches. head reports seqPattern.MustHead. Read-only accessor
+// for the verification harness; never used by the library itself.
+func VerifCompile(p string) (prog [][]int, head bool, err error) {
+	defer func() {
+		if v := recover(); v != nil {
+			if perr, ok := v.(*Error); ok {
+				err = perr
+			} else {
+				panic(v)
+			}
+		}
+	}()
+	pat := parsePattern(newScanner([]byte(p)), true)
+	insts := compilePattern(pat)
+	for _, in := range insts {
+		row := []int{int(in.OpCode), in.Operand1, in.Operand2}
+		if in.OpCode == opChar {
+			for ch := 0; ch < 256; ch++ {
+				if in.Class.Matches(ch) {
+					row = append(row, ch)
+				}
+			}
+		}
+		prog = append(prog, row)
+	}
+	return prog, pat.MustHead, nil
+}
